@@ -549,6 +549,10 @@ def oracle(case):
         must_raise = "name %r is not a token" % name
     elif isinstance(ss, bytes) and validate and ss.lower() not in (b"strict", b"lax", b"none"):
         must_raise = "SameSite=%r with validation on" % ss
+    elif isinstance(ss, bytes) and not validate and not all(c in RFC_TOKEN for c in ss):
+        # the flag only lifts the restriction to the three words; the value is copied verbatim, so anything but a
+        # token could end the attribute and add attributes nobody requested
+        must_raise = "SameSite-not-a-token %r with validation off" % ss
     elif isinstance(ss, bytes) and ss.lower() == b"none" and not secure:
         must_raise = "SameSite=None without Secure"
     elif secs_arg == BAD and value is not None:
@@ -577,10 +581,6 @@ def oracle(case):
         if needs_quote(value if isinstance(value, bytes) else (value or "").encode("utf-8", "replace")) or \
                 needs_quote(attrs_in["comment"]):
             may_raise = True
-    if isinstance(ss, bytes) and not validate and not all(c in RFC_TOKEN for c in ss):
-        may_raise = True                     # free-form SameSite with validation off is outside the statement
-        if not isinstance(line, Err):
-            return None
     if isinstance(line, Err):
         if must_raise or may_raise:
             return None
@@ -693,6 +693,9 @@ def oracle(case):
     return None
 
 
+KEY_NON_UTF8 = "request-cookies:non-utf8-value"
+FINDING_KEYS = {KEY_NON_UTF8}       # keys proposed for KNOWN_FINDINGS.txt: reported under the same key wherever they show up
+
 OTHERS = [("a", b"1"), ("b", b"x y"), ("c", b"\xc3\xa9;"), ("z9", b"")]
 
 
@@ -704,7 +707,7 @@ def oracle_echo(pair, name, vbytes, contexts=None):
         warnings.simplefilter("ignore")
         others = [(n, v, ck.make_cookie(n, v, path=None)) for n, v in OTHERS if n != name]
     if contexts is None:
-        contexts = [([], []), (others[:1], others[1:2]), (others[:3], []), ([], others[1:])]
+        contexts = [(others[:1], others[1:2]), ([], []), (others[:3], []), ([], others[1:])]
     nb = name.encode("ascii")
     for left, right in contexts:
         seq = [(n.encode(), v, p) for n, v, p in left] + [(nb, vbytes, pair)] + [(n.encode(), v, p) for n, v, p in right]
@@ -724,8 +727,15 @@ def oracle_echo(pair, name, vbytes, contexts=None):
             text = None
         r = catch(lambda: list(Request({"HTTP_COOKIE": hdr}).cookies.items()))
         if text is None:
-            # the octets are exact at parse_cookie level; request.cookies is a text API and has no str for them
-            if r != Err("UnicodeDecodeError"):
+            # not UTF-8: the octets are exact at parse_cookie level (checked above); request.cookies would have to hand
+            # them out losslessly (PEP 383 surrogateescape is the only str that denotes them) with the others intact
+            wantd = {}
+            for n, v in want:
+                wantd[n.decode()] = v.decode("utf-8", "surrogateescape")
+            if r == Err("UnicodeDecodeError"):
+                return (KEY_NON_UTF8, "value %r emitted as %r: request.cookies on %r raises UnicodeDecodeError - for every cookie of "
+                        "the header (parse_cookie reads the octets back exactly)" % (vbytes, pair, hdr))
+            if r != list(wantd.items()):
                 return "request-cookies-non-utf8", "request.cookies on %r gives %r" % (hdr, r)
             continue
         wantd = {}
@@ -855,8 +865,9 @@ def r_case(rng, api=None, malformed=False):
         case["samesite"] = enc_value(rng.choice(SAMESITE_OK).encode())
     else:
         case["samesite"] = enc_value(rng.choice(SAMESITE_BAD + ["future"]).encode("latin-1", "replace"))
-    if not case["validate"] and rng.random() < 0.3:
-        case["samesite"] = enc_value(rng.choice([b"future", b"Relaxed", b""]))
+    if not case["validate"] and rng.random() < 0.4:
+        case["samesite"] = enc_value(rng.choice([b"future", b"Relaxed", b"", b"x; Domain=evil.example", b"a b", b"x,y", b"Lax;", b"\xe9",
+                                                  b"q\"", b"Lax\r\nSet-Cookie: z=1", b"a=b"]))
     if rng.random() < 0.15:       # arguments given as str instead of bytes
         for k in ("path", "domain", "comment", "samesite"):
             v = case.get(k)
@@ -1196,13 +1207,13 @@ def run(ctx):
         "a line is produced); header text seen by the input side is latin-1 (WSGI)",
         "a str value given directly to make_cookie must be ASCII (it raises UnicodeEncodeError otherwise); Response.set_cookie "
         "is the entry point for arbitrary text (utf-8)",
-        "cookie values that are not valid UTF-8 round-trip exactly at parse_cookie level; request.cookies is a text API and "
-        "raises UnicodeDecodeError for them",
+        "cookie values that are not valid UTF-8 round-trip exactly at parse_cookie level; that request.cookies raises "
+        "UnicodeDecodeError for them (and for the other cookies of the header) is reported under the key "
+        "request-cookies:non-utf8-value (proposed known finding; Props: C07_request_cookies_bytes_refuted)",
         "the rendered expires date is an abstract input of the model (hypotheses: plain, i.e. printable without ';' '\"' '\\', and "
         "cookie_date, i.e. taken in full by the expires alternative of the scanner); both are evaluated in Coq on every date "
         "webob rendered during the run, and the oracle checks format, weekday and value = utcnow()+max_age",
-        "with SAMESITE_VALIDATION off a free-form SameSite value is copied verbatim (outside the statement: only token-like "
-        "values are checked then)",
+        "with SAMESITE_VALIDATION off a SameSite value must still be a token (it is copied verbatim); anything else must raise",
         "names that are tokens but start with '$' or spell an attribute name are refused by webob as well (stricter than asked)",
         "|max_age| small enough for datetime arithmetic (no OverflowError)",
     ]
@@ -1440,6 +1451,8 @@ def hist_calls(case):
     for i, c in enumerate(calls):
         res = oracle(c)
         if res:
+            if res[0] in FINDING_KEYS:
+                return res
             return "history:" + res[0], "call #%d of the history: %s" % (i, res[1])
     return None
 
